@@ -133,6 +133,9 @@ func compare(rec *opRec, got *xmltree.Node, streamNS string, s2s bool, local str
 // element.
 var partialForms = []string{"Send:reader-fails", "SendElement:payload-reader-fails", "Encode:xmlstream.Marshaler-fails", "Encode:xmlstream.WriterTo-fails", "TokenWriter:closed-mid-element",
 	"Send:reader-ends-with-element-open", "SendElement:payload-ends-with-element-open", "Send:context-ends-while-write-blocked",
+	// a token writer that flushed what it had and is then closed with its
+	// element still open; nothing follows but the end of the session
+	"TokenWriter:flushed-then-closed-mid-element",
 	// the caller's reader panics in mid-element and the application recovers
 	// (worker isolation), then goes on using the session
 	"Send:reader-panics", "SendElement:payload-reader-panics", "SendIQ:reader-panics", "EncodeIQElement:marshaler-panics", "Encode:xmlstream.Marshaler-panics", "Encode:xmlstream.WriterTo-panics"}
@@ -250,6 +253,19 @@ func doPartial(s *xmpp.Session, form string) error {
 		return s.Encode(ctx, failingMarshaler{whole})
 	case "Encode:xmlstream.WriterTo-fails":
 		return s.Encode(ctx, failingWriterTo{whole})
+	case "TokenWriter:flushed-then-closed-mid-element":
+		w := s.TokenWriter()
+		for _, t := range whole {
+			if err := w.EncodeToken(t); err != nil {
+				w.Close()
+				return err
+			}
+		}
+		if err := w.Flush(); err != nil {
+			w.Close()
+			return err
+		}
+		return w.Close()
 	default: // TokenWriter:closed-mid-element
 		w := s.TokenWriter()
 		for _, t := range whole {
@@ -605,7 +621,11 @@ func runHistory(c *core.Case) {
 		prec.wireAtRet, prec.TRet = int64(p.Lib.WrittenLen()), clock.Add(1)
 		fin = append(fin, prec)
 		g := &gen{r: fr, streamNS: streamNS, s2s: o.S2S, s: p.S, c: c}
-		for n := 1; n <= 3; n++ {
+		after := 3
+		if partialForm == "TokenWriter:flushed-then-closed-mid-element" {
+			after = 0 // whatever the Close left behind must be on the wire before the closing tag
+		}
+		for n := 1; n <= after; n++ {
 			marker := fmt.Sprintf("fin-%d", n)
 			kind := kinds[fr.Intn(3)]
 			e := g.stanzaTop(kind, typeFor(fr, kind, false), marker, "")
@@ -795,7 +815,7 @@ func runHistory(c *core.Case) {
 			// the call that was made to fail half-way: what it left on the wire (a
 			// truncated but closed element, or nothing) is not judged, the calls
 			// after it are
-			if rec.Err == "" && rec.Form != "TokenWriter:closed-mid-element" && rec.Form != "abandoned" && rec.Form != "abandoned-other" {
+			if rec.Err == "" && rec.Form != "TokenWriter:closed-mid-element" && rec.Form != "TokenWriter:flushed-then-closed-mid-element" && rec.Form != "abandoned" && rec.Form != "abandoned-other" {
 				c.Violate("wire:partial-accepted:"+rec.Form, "%s returned nil although its argument failed half-way", rec.Form)
 			}
 			continue
@@ -897,7 +917,7 @@ func trunc(s string) string {
 
 // Prop returns the C05 check.
 func Prop() *core.Prop {
-	req := []string{"histories", "histories_with_transmits_racing_close", "C10/transmits_overlapping_a_close", "sessions_from_the_default_negotiator", "s2s_sessions_whose_peer_header_omits_to", "received_sessions_from_the_default_negotiator", "received_s2s_sessions_from_the_default_negotiator", "stanzas_in_raw_token_form_unresolved_name_plus_xmlns_attribute", "histories_with_partial_failure", "partial:Send:reader-fails", "partial:SendElement:payload-reader-fails", "partial:Encode:xmlstream.Marshaler-fails", "partial:Encode:xmlstream.WriterTo-fails", "partial:TokenWriter:closed-mid-element", "partial:Send:reader-ends-with-element-open", "partial:SendElement:payload-ends-with-element-open", "partial:Send:context-ends-while-write-blocked", "partial:Encode:xmlstream.WriterTo-panics", "partial:Encode:xmlstream.Marshaler-panics", "partial:EncodeIQElement:marshaler-panics", "partial:SendIQ:reader-panics", "partial:SendElement:payload-reader-panics", "partial:Send:reader-panics", "component_streams", "invalid_argument_calls", "incoming_stanzas_nobody_answers", "handler_replies_after_refused_writes", "handler_replies_abandoned_in_mid_element", "handlers_that_abandon_another_element_and_leave_the_reply_to_the_session", "calls_overlapping_another_actor", "elements_spanning_several_writes", "auto_replies", "wire_stanzas"}
+	req := []string{"histories", "histories_with_transmits_racing_close", "C10/transmits_overlapping_a_close", "sessions_from_the_default_negotiator", "s2s_sessions_whose_peer_header_omits_to", "received_sessions_from_the_default_negotiator", "received_s2s_sessions_from_the_default_negotiator", "stanzas_in_raw_token_form_unresolved_name_plus_xmlns_attribute", "histories_with_partial_failure", "partial:Send:reader-fails", "partial:SendElement:payload-reader-fails", "partial:Encode:xmlstream.Marshaler-fails", "partial:Encode:xmlstream.WriterTo-fails", "partial:TokenWriter:closed-mid-element", "partial:Send:reader-ends-with-element-open", "partial:SendElement:payload-ends-with-element-open", "partial:Send:context-ends-while-write-blocked", "partial:TokenWriter:flushed-then-closed-mid-element", "marshaled_values_with_a_comment_before_their_children", "non_stanzas_in_raw_token_form_unresolved_name_plus_xmlns_attribute", "partial:Encode:xmlstream.WriterTo-panics", "partial:Encode:xmlstream.Marshaler-panics", "partial:EncodeIQElement:marshaler-panics", "partial:SendIQ:reader-panics", "partial:SendElement:payload-reader-panics", "partial:Send:reader-panics", "component_streams", "invalid_argument_calls", "incoming_stanzas_nobody_answers", "handler_replies_after_refused_writes", "handler_replies_abandoned_in_mid_element", "handlers_that_abandon_another_element_and_leave_the_reply_to_the_session", "calls_overlapping_another_actor", "elements_spanning_several_writes", "auto_replies", "wire_stanzas"}
 	for _, e := range []string{"Send", "SendElement", "Encode", "EncodeElement", "TokenWriter", "HandlerReply",
 		"SendIQ", "SendIQElement", "EncodeIQ", "EncodeIQElement", "UnmarshalIQ", "UnmarshalIQElement", "IterIQ", "IterIQElement",
 		"SendMessage", "SendMessageElement", "EncodeMessage", "EncodeMessageElement",
